@@ -1,0 +1,39 @@
+//go:build verif
+
+package lite
+
+import (
+	"net"
+
+	"github.com/go-logr/logr"
+	"go.minekube.com/gate/pkg/edition/java/lite/config"
+	"go.minekube.com/gate/pkg/edition/java/netmc"
+	"go.minekube.com/gate/pkg/edition/java/proto/packet"
+)
+
+// Thin re-exports for the C30 check (verification harness only; no logic).
+
+// verifClientC30 is a client of which findRoute only uses Conn().
+type verifClientC30 struct {
+	netmc.MinecraftConn
+	conn net.Conn
+}
+
+func (c verifClientC30) Conn() net.Conn { return c.conn }
+
+// VerifNextBackendC30 calls findRoute and returns the matched route host and the per-attempt
+// backend iterator (nil if findRoute returned an error).
+func VerifNextBackendC30(routes []config.Route, serverAddress string, sm *StrategyManager, conn net.Conn) (routeHost string, next func() (string, bool)) {
+	_, _, _, routeHost, nb, err := findRoute(routes, logr.Discard(), verifClientC30{conn: conn},
+		&packet.Handshake{ServerAddress: serverAddress}, sm)
+	if err != nil || nb == nil {
+		return routeHost, nil
+	}
+	return routeHost, func() (string, bool) {
+		addr, _, ok := nb()
+		return addr, ok
+	}
+}
+
+// VerifCanonicalBackendAddress is canonicalBackendAddress.
+func VerifCanonicalBackendAddress(backend string) string { return canonicalBackendAddress(backend) }
